@@ -1186,3 +1186,9 @@ mod test_token {
         }
     }
 }
+
+#[cfg(kani)]
+mod verif_kani {
+    use super::*;
+    include!(concat!(env!("LIBTW2_VERIF_HARNESS"), "/net_protocol.rs"));
+}
